@@ -9,14 +9,11 @@ one() {
   cp /verif/known-findings.txt $T/verif/
   if ! (cd $T/repo && patch -p1 -s --no-backup-if-mismatch < "$P" >/dev/null 2>&1); then echo "$P: PATCH-DOES-NOT-APPLY"; rm -rf $T; return; fi
   if ! (cd $T/repo && GOFLAGS=-mod=mod GOPROXY=off GOSUMDB=off GOTOOLCHAIN=local go build ./... 2>/dev/null); then echo "$P: DOES-NOT-BUILD"; rm -rf $T; return; fi
-  bad=""
-  for prop in C01 C02 C03 C04 C05 C06 C07 C08 C09 C10 C11 C12 C13 C14 C15 C16 C17 C18 C19 C20; do
-    out=$($BIN -property $prop -repo $T/repo -verif $T/verif 2>&1); rc=$?
-    if [ $rc -ne 0 ]; then
-      bad="$bad
-   $prop rc=$rc $(echo "$out" | grep -E '^  violated:|^INCONCLUSIVE' | sed 's/^  violated: //' | head -4 | paste -sd';' | cut -c1-400)"
-    fi
-  done
+  out=$($BIN -sweep -repo $T/repo -verif $T/verif 2>&1)
+  # one block per property, closed by "=== <id> rc=<n>"
+  bad=$(echo "$out" | awk '/^  violated:|^INCONCLUSIVE/ { sub(/^  violated: /, ""); acc = acc (acc == "" ? "" : ";") $0 } /^=== / { split($3, a, "="); if (a[2] != "0") printf "\n   %s %s %s", $2, $3, substr(acc, 1, 400); acc = "" }')
+  echo "$out" | grep -q '^=== C20 ' || bad="$bad
+   SWEEP-INCOMPLETE $(echo "$out" | tail -2 | paste -sd';' | cut -c1-300)"
   rm -rf $T
   if [ -z "$bad" ]; then echo "$P: silent"; else echo "$P: ALARM$bad"; fi
 }
